@@ -11,9 +11,12 @@ import manifest_meta as mm  # noqa: E402
 
 props = [json.loads(l)["id"] for l in open(os.path.join(VERIF, "properties.jsonl"))]
 checks, na = [], []
+import importlib  # noqa: E402
 for p in props:
-    if p in mm.CHECKS:
-        c = mm.CHECKS[p]
+    c = None
+    if os.path.exists(os.path.join(VERIF, "harness", "props", p.lower() + ".py")):
+        c = getattr(importlib.import_module("props." + p.lower()), "MANIFEST", None)
+    if c:
         checks.append({
             "property_id": p,
             "quick_cmd": f"/venv/bin/python harness/check.py {p} --tier quick",
